@@ -119,10 +119,29 @@ class TseitinTransformation:
     def goal2intcnf(self, goal: z3.Goal) -> list[list[int]]:
         cnf = []
         for expr in goal:
-            if z3.is_or(expr):
-                cnf.append([self.expr_to_signed_id(x) for x in expr.children()])
+            literals = expr.children() if z3.is_or(expr) else [expr]
+            clause = []
+            satisfied = False
+            for lit in literals:
+                # the tactic leaves Boolean constants in place; they are not atoms
+                negated = z3.is_not(lit)
+                atom = lit.children()[0] if negated else lit
+                if z3.is_true(atom) or z3.is_false(atom):
+                    if z3.is_true(atom) != negated:
+                        satisfied = True
+                        break
+                    continue
+                clause.append(self.expr_to_signed_id(lit))
+            if satisfied:
+                continue
+            if not clause:
+                # unsatisfiable clause: encode as x and not x over a reserved variable
+                pool = cast(IDPool, self.epistemic_state["pool"])  # type: ignore[assignment]
+                false_id = pool.id("__false__")
+                cnf.append([false_id])
+                cnf.append([-false_id])
             else:
-                cnf.append([self.expr_to_signed_id(expr)])
+                cnf.append(clause)
         return cnf
 
     """
